@@ -72,15 +72,20 @@ Proof. exact cell_partition. Qed.
 Print Assumptions C15_cell_partition.
 
 (* trimmed cells.  The full claim (omitted region = trimmed region up to one sampling cell, for arbitrary closed trims) is
-   NOT proved; it is checked by the exact oracle of harness/props/C15.py on every run.  Proved are the two rules it rests on. *)
+   NOT proved; it is checked by the exact oracle of harness/props/C15.py on every run.  It would read: a cell that no
+   trim segment meets is either omitted or tessellated by exactly its two fan triangles. *)
+Definition seg_meets_cell (p q : list R) (u0 u1 v0 v1 : R) : Prop :=
+  exists l, (0 <= l <= 1)%R /\ (u0 <= cx Rops p + l * (cx Rops q - cx Rops p) <= u1)%R /\
+            (v0 <= cy Rops p + l * (cy Rops q - cy Rops p) <= v1)%R.
 Definition C15_trim_within_one_cell_full : Prop :=
-  forall (rtol tol tols : R) (trims : list (@trimc R)) (s : list (@vobj R)) (corners : list nat) (vidx tidx : nat),
-    (* if no trim polyline meets the closed cell, the cell is either omitted (centre trimmed) or kept whole *)
-    cell_intersections Rops rtol tol
-      (map (fun p => (vuv (vget Rops s (fst p)), vuv (vget Rops s (snd p))))
-           (combine (corners ++ [hd 0 corners]) (tl (corners ++ [hd 0 corners])))) trims = [] ->
-    let r := surface_trim_tessellate Rops rtol tol tols trims s corners vidx tidx in
-    snd r = [] \/ length (snd r) = 2.
+  forall (rtol tol tols : R) (trims : list (@trimc R)) (s : list (@vobj R)) (c1 c2 c3 c4 vidx tidx : nat) (u0 u1 v0 v1 : R),
+    (u0 < u1)%R -> (v0 < v1)%R ->
+    vuv (vget Rops s c1) = [u0; v0] -> vuv (vget Rops s c2) = [u1; v0] ->
+    vuv (vget Rops s c3) = [u1; v1] -> vuv (vget Rops s c4) = [u0; v1] ->
+    Forall (fun c => vinside (vget Rops s c) = false /\ vtrim (vget Rops s c) = false /\ vnotrim (vget Rops s c) = false) [c1; c2; c3; c4] ->
+    (forall trim p q, In trim trims -> In (p, q) (combine (tpts trim) (tl (tpts trim))) -> ~ seg_meets_cell p q u0 u1 v0 v1) ->
+    let ts := snd (surface_trim_tessellate Rops rtol tol tols trims s [c1; c2; c3; c4] vidx tidx) in
+    ts = [] \/ ts = [(tidx, (c1, c2, c3)); (S tidx, (c1, c3, c4))].
 
 (* [G, by definition] a cell whose four corners are all classified inside is omitted *)
 Theorem C15_trim_cell_all_inside_partial : forall (rtol tol tols : R) trims s corners vidx tidx,
@@ -90,6 +95,21 @@ Theorem C15_trim_cell_all_inside_partial : forall (rtol tol tols : R) trims s co
   surface_trim_tessellate Rops rtol tol tols trims s corners vidx tidx = (s1, [], []).
 Proof. exact (trim_cell_all_inside Rops). Qed.
 Print Assumptions C15_trim_cell_all_inside_partial.
+
+(* [G] the "kept whole" rule: no corner classified inside and no trim segment crossing a cell edge => the four corners
+   and exactly the two fan triangles, each kept unless its own centre of mass is trimmed; no vertex is created *)
+Theorem C15_trim_cell_no_crossing_partial : forall (rtol tol tols : R) trims s c1 c2 c3 c4 vidx tidx,
+  let s1 := fold_left (fun st p => upd st (snd p) (classify_vertex Rops tols trims (fst p) (vget Rops st (snd p))))
+                      (combine (seq 0 4) [c1; c2; c3; c4]) s in
+  vinside (vget Rops s1 c1) = false -> vinside (vget Rops s1 c2) = false ->
+  vinside (vget Rops s1 c3) = false -> vinside (vget Rops s1 c4) = false ->
+  cell_intersections Rops rtol tol
+    [(vuv (vget Rops s1 c1), vuv (vget Rops s1 c2)); (vuv (vget Rops s1 c2), vuv (vget Rops s1 c3));
+     (vuv (vget Rops s1 c3), vuv (vget Rops s1 c4)); (vuv (vget Rops s1 c4), vuv (vget Rops s1 c1))] trims = [] ->
+  surface_trim_tessellate Rops rtol tol tols trims s [c1; c2; c3; c4] vidx tidx =
+  (s1, [c1; c2; c3; c4], filter (tri_kept Rops trims s1) [(tidx, (c1, c2, c3)); (S tidx, (c1, c3, c4))]).
+Proof. exact (trim_cell_no_crossing Rops). Qed.
+Print Assumptions C15_trim_cell_no_crossing_partial.
 
 (* [G] without trims the trim-aware callback produces exactly the untrimmed fan, creates no vertex, drops nothing *)
 Theorem C15_trim_cell_no_trims_partial : forall (rtol tol tols : R) s c1 c2 c3 c4 vidx tidx,
